@@ -32,6 +32,9 @@ def legal_names(rng, enc, n_random):
             "mixé😀é.x", "Maßstäbe.txt", "Straßenverzeichnis", "messwerte.maß", "ﬁnal.ﬂ", "İstanbul.txt", "ǆ.txt", "a" * 12 + "😀" * 6, "😀" * 127]
     # names without a usable stem in the first 8 characters (D37): spaces (and dots) only before the last dot, 8 and more leading spaces
     out += [" .a", " .b", "  .txt", " .   c", ". .d", " . .e", " ..f", "         x", "         y.txt", "        .z", " lead", "  .lead two.x"]
+    # names that differ only in case, none of them all upper-case: every one is a name of its own (long names compare exactly),
+    # the first takes the plain 8.3 alias and the later ones must get a numbered one
+    out += ["Readme.txt", "readme.txt", "rEADME.TXT", "Notes", "notes", "foo.d", "Foo.d", "fOO.D"]
     for i in range(1, 14):
         out.append(f"collide long name {i:02d}.txt")
     for _ in range(n_random):
@@ -57,12 +60,19 @@ def run(ctx):
             rng = random.Random(ctx.rng.randrange(1 << 62))
             names = legal_names(rng, enc, ctx.scale(40, 600))
             names = [n for n in names if not _hist.quarantined_name(n, enc)]
-            # names_ok: drop names equal ignoring case to an earlier one
-            seen, uniq = set(), []
+            # names equal ignoring case to an earlier one: with case preservation two spellings that both differ from their upper-case
+            # form are two names (long names compare exactly); an all-upper spelling is the 8.3 alias of the others and is dropped, and
+            # without case preservation all spellings of an 8.3 name are one name
+            seen, uniq = {}, []
             for n in names:
-                if n.upper() in seen:
+                u = n.upper()
+                if u in seen:
+                    if not pc or n == u or n in seen[u] or any(e == u for e in seen[u]):
+                        continue
+                    seen[u].append(n)
+                    uniq.append(n)
                     continue
-                seen.add(n.upper())
+                seen[u] = [n]
                 uniq.append(n)
             # function level: make_lfn_entry vs the model's make_lfn, is_8dot3 etc.
             for n in uniq:
@@ -165,6 +175,29 @@ def run(ctx):
                                 break
                     except Exception as e:  # noqa
                         ctx.violation(f"[{enc},pc={pc}] remount after creating names raised {type(e).__name__}: {e}", f"remount-raises:{type(e).__name__}", rep)
+                    # every entry is also reached through its 8.3 alias, as the independent reader sees the aliases in the live image,
+                    # and the alias leads to that very entry (two entries sharing an alias make one of them unreachable by it)
+                    try:
+                        sv = fatspec.Volume(snap, force_ft=history.force_ft(meta))
+                        dloc = [e for e in sv.read_dir(sv.root_loc(), enc) if e["name"] == "D"][0]["cluster"]
+                        dents = [e for e in sv.read_dir(dloc, enc) if e["short"] not in (".", "..")]
+                    except Exception as e:  # noqa  (the fsck below reports an undecodable image)
+                        dents = []
+                    for e in dents:
+                        if "\ufffd" in e["short"] or e["long"] is None:
+                            continue
+                        try:
+                            e["short"].encode(enc)
+                        except UnicodeError:
+                            continue
+                        res, _ = ir.op(["getinfo", "/D/" + e["short"]])
+                        ctx.dist["getinfo-by-alias"] += 1
+                        if res[0] != "ok":
+                            ctx.violation(f"[{enc},pc={pc}] {e['name'][:40]!r} is not found through its alias {e['short']!r}: {res[1]}", "alias-not-found", dict(rep, name=e["name"], alias=e["short"]))
+                            break
+                        if res[1][0] != e["name"]:
+                            ctx.violation(f"[{enc},pc={pc}] alias {e['short']!r} of {e['name'][:40]!r} leads to {res[1][0][:40]!r}", "alias-ambiguous", dict(rep, name=e["name"], alias=e["short"]))
+                            break
                     ir.op(["closefs"])
                     fnd = history.fatspec_fsck(ir.dev.volume(), img, enc, meta)
                     if fnd:
